@@ -10,6 +10,7 @@ expansion and the contract holds for every fuel that is `enough` (never runs out
 enough for an acyclic document, and termination of the recursion, are NOT proved.
 
 Extracted verbatim: ResponseBuilder::collect_fields.
+Loop contracts are keyed by the loop's header text (`when`), so a variant with one loop fewer is judged rather than lost.
 Listed rewrites: `for selection in &selection_set.selections` and the two `for (key, mut fields) in self.collect_fields(..)` loops -> the index loops they desugar to
 (the by-value iteration over the returned map becomes `entry_at(j)`: an owned copy of the j-th entry); `collected.entry(key).or_default().push(x)` /
 `.append(&mut fields)` -> `entry_push(key, x)` / `entry_append(key, &mut fields)`; `<&Name>.to_string()` -> `name_to_string(..)`; the impl header's generics are dropped.
@@ -59,6 +60,13 @@ pub open spec fn group_append(g: SGroups, k: Seq<char>, fs: Seq<Node<Field>>) ->
     let j = sgidx(g, k, g.len() as int);
     if j >= 0 { g.update(j, (k, g[j].1 + fs)) } else { g.push((k, fs)) }
 }
+pub open spec fn group_set(g: SGroups, k: Seq<char>, fs: Seq<Node<Field>>) -> SGroups {
+    let j = sgidx(g, k, g.len() as int);
+    if j >= 0 { g.update(j, (k, fs)) } else { g.push((k, fs)) }
+}
+pub open spec fn extend_groups(acc: SGroups, g: SGroups, n: int) -> SGroups decreases n {
+    if n <= 0 || n > g.len() { acc } else { group_set(extend_groups(acc, g, n - 1), g[n - 1].0, g[n - 1].1) }
+}
 #[verifier::external_body]
 pub struct GroupMap { x: u8 }
 impl GroupMap {
@@ -73,6 +81,10 @@ impl GroupMap {
     // `map.entry(k).or_default().append(&mut fields)`
     #[verifier::external_body]
     pub fn entry_append(&mut self, k: String, fs: &mut Vec<Node<Field>>) ensures final(self)@ == group_append(old(self)@, k@, old(fs)@) { unimplemented!() }
+    // IndexMap::extend(other): every entry of `other` in order -- an existing key keeps its position and gets the NEW value (it is overwritten), a new key goes to the end.
+    // Not used by the code as it is; present so that a variant that merges with `extend` is judged.
+    #[verifier::external_body]
+    pub fn extend(&mut self, other: GroupMap) ensures final(self)@ == extend_groups(old(self)@, other@, other@.len() as int) { unimplemented!() }
     // the j-th `(key, fields)` item of `for (key, fields) in map` (listed rewrite of the by-value loop)
     #[verifier::external_body]
     pub fn entry_at(&self, j: usize) -> (r: (String, Vec<Node<Field>>)) requires j < self@.len() ensures r.0@ == self@[j as int].0, r.1@ == self@[j as int].1 { unimplemented!() }
@@ -164,7 +176,7 @@ END_PROOF = (
     "}") % ENOUGH_ALL
 
 def merge_loop(li):
-    return dict(invariant=[("bounds", "__j%d <= __m%d@.len()" % (li, li)), ("concrete_is_an_object_type_of_the_schema", CONCRETE_OK),
+    return dict(when="__j%d < __m%d.len()" % (li, li), invariant=[("bounds", "__j%d <= __m%d@.len()" % (li, li)), ("concrete_is_an_object_type_of_the_schema", CONCRETE_OK),
                            ("merged_so_far", "collected@ == merge(c0, __m%d@, __j%d as int)" % (li, li))],
                 decreases="__m%d@.len() - __j%d" % (li, li))
 
@@ -174,20 +186,20 @@ UNIT = {
     "parts": [
         PRELUDE,
         dict(file=RESP, kind="fn", name="collect_fields", container="ResponseBuilder<'a, 'doc, 'schema, R>", container_name="ResponseBuilder", wrap="impl<'doc, 'schema> ResponseBuilder<'doc, 'schema>", props=["C33"],
-             n_loops=3, no_decreases=True,
+             no_decreases=True,
              rewrites=[(") -> IndexMap<String, Vec<Node<Field>>> {", ") -> GroupMap {", 1),
                        ("let mut collected: IndexMap<String, Vec<Node<Field>>> = IndexMap::new();", "let mut collected: GroupMap = GroupMap::new();", 1),
                        ("for selection in &selection_set.selections {", "let mut __i: usize = 0; while __i < selection_set.selections.len() { let selection = &selection_set.selections[__i]; __i += 1;", 1),
                        ("field.alias.as_ref().unwrap_or(&field.name).to_string()", "name_to_string(field.alias.as_ref().unwrap_or(&field.name))", 1),
                        ("collected.entry(key).or_default().push(field.clone());", "collected.entry_push(key, field.clone());", 1),
-                       ("collected.entry(key).or_default().append(&mut fields);", "collected.entry_append(key, &mut fields);", None),
+                       ("collected.entry(key).or_default().append(&mut fields);", "collected.entry_append(key, &mut fields);", "*"),
                        (r"for \(key, mut fields\) in\s+self\.collect_fields\(&fragment_def\.selection_set, concrete_type\)\s+\{",
-                        "let ghost c0 = collected@; let __m1 = self.collect_fields(&fragment_def.selection_set, concrete_type); let mut __j1: usize = 0; while __j1 < __m1.len() { let (key, mut fields) = __m1.entry_at(__j1); __j1 += 1;", 1, "re"),
+                        "let ghost c0 = collected@; let __m1 = self.collect_fields(&fragment_def.selection_set, concrete_type); let mut __j1: usize = 0; while __j1 < __m1.len() { let (key, mut fields) = __m1.entry_at(__j1); __j1 += 1;", "*", "re"),
                        (r"for \(key, mut fields\) in\s+self\.collect_fields\(&inline_fragment\.selection_set, concrete_type\)\s+\{",
-                        "let ghost c0 = collected@; let __m2 = self.collect_fields(&inline_fragment.selection_set, concrete_type); let mut __j2: usize = 0; while __j2 < __m2.len() { let (key, mut fields) = __m2.entry_at(__j2); __j2 += 1;", 1, "re")],
+                        "let ghost c0 = collected@; let __m2 = self.collect_fields(&inline_fragment.selection_set, concrete_type); let mut __j2: usize = 0; while __j2 < __m2.len() { let (key, mut fields) = __m2.entry_at(__j2); __j2 += 1;", "*", "re")],
              clauses=[("requires", "concrete_is_an_object_type_of_the_schema", CONCRETE_OK),
                       ("ensures", "response_keys_and_groups", "forall|fuel: nat| %s ==> r@ == #[trigger] %s" % (ENOUGH_ALL, SPEC_ALL))],
-             loops=[dict(invariant=[("bounds", "__i <= selection_set.selections@.len()"), ("concrete_is_an_object_type_of_the_schema", CONCRETE_OK),
+             loops=[dict(when="__i < selection_set.selections.len()", invariant=[("bounds", "__i <= selection_set.selections@.len()"), ("concrete_is_an_object_type_of_the_schema", CONCRETE_OK),
                                     ("collected_so_far", "forall|fuel: nat| %s ==> collected@ == #[trigger] groups_seq(%s, selection_set.selections@, __i as int, SGroups::empty(), fuel)" % (ENOUGH_ALL, ARGS))],
                          decreases="selection_set.selections@.len() - __i"),
                     merge_loop(1), merge_loop(2)],
